@@ -115,6 +115,8 @@ struct Sv {
     answered: Vec<usize>,
 }
 
+selium_verif_harness::virtual_clock!();
+
 struct Run {
     log: EvLog,
     fut: Option<Pin<Box<Topic<MockErr>>>>,
@@ -124,6 +126,7 @@ struct Run {
     svs: BTreeMap<u64, Sv>,
     ctx: Arc<Mutex<Ctx>>,
     closed: bool,
+    tick: Option<&'static [u64]>,
     finished: bool,
     dead: bool,
     polls: u64,
@@ -180,6 +183,7 @@ impl Run {
             svs: BTreeMap::new(),
             ctx,
             closed: false,
+            tick: None,
             finished: false,
             dead: false,
             polls: 0,
@@ -553,7 +557,13 @@ impl Run {
     }
 
     fn run(&mut self, sched: &Schedule) {
-        for st in &sched.steps {
+        for (i, st) in sched.steps.iter().enumerate() {
+            // time passes (a stuttering step of the specification: the router has no timers)
+            if let Some(secs) = self.tick {
+                let d = std::time::Duration::from_secs(secs[i % secs.len()]);
+                selium_verif_harness::clock::advance(d);
+                self.log.emit("tick", json!({"secs": d.as_secs()}));
+            }
             self.apply(st);
             self.maybe_quiescent();
         }
@@ -684,6 +694,39 @@ fn random_schedule(rng: &mut StdRng, k: u64, len: usize) -> Schedule {
     Schedule { id: format!("rnd-{k}"), steps }
 }
 
+/// One long life of a topic: eight repliers, one after the other, each of which leaves by ending its stream
+/// with several hundred requests unanswered (a few thousand in all), while the requestors keep asking.  What
+/// the router keeps per replier, per request or per topic must not add up: the replier of every generation
+/// is bound and served like the first.  (The short schedules never let anything grow past a handful.)
+fn marathon_schedule(rng: &mut StdRng) -> Schedule {
+    let s = |op: &str, id: u64| Step { op: op.into(), id, ..Default::default() };
+    let mut steps = vec![s("reg_cl", 1), s("reg_cl", 2), s("poll", 0)];
+    let (gens, per) = std::env::var("VERIF_MARATHON")
+        .ok()
+        .and_then(|v| v.split_once(',').map(|(a, b)| (a.parse().unwrap_or(8), b.parse().unwrap_or(620))))
+        .unwrap_or((8u64, 620u64));
+    for g in 1..=gens {
+        steps.push(s("reg_sv", g));
+        steps.push(s("poll", 0));
+        let n = rng.gen_range(per..per + per / 8 + 1);
+        for i in 0..n {
+            steps.push(Step { op: "request".into(), id: 1 + (i + g) % 2, which: "reqid".into(), arg: 1, role: String::new() });
+            if i % 64 == 63 {
+                steps.push(s("poll", 0));
+            }
+        }
+        steps.push(s("poll", 0));
+        // served: the first, one in the middle and the last request of this generation are answered
+        for i in [1, n / 2, n] {
+            steps.push(Step { op: "reply".into(), id: g, which: String::new(), arg: i, role: String::new() });
+        }
+        steps.push(s("poll", 0));
+        steps.push(s(if g % 3 == 0 { "sv_err" } else { "sv_end" }, g));
+        steps.push(s("poll", 0));
+    }
+    Schedule { id: "marathon".into(), steps }
+}
+
 fn arg(args: &[String], name: &str) -> Option<String> {
     args.iter().position(|a| a == name).and_then(|i| args.get(i + 1).cloned())
 }
@@ -712,6 +755,9 @@ fn main() {
         for k in 0..n {
             schedules.push(random_schedule(&mut rng, k, len));
         }
+        for _ in 0..(n / 4000).max(1) {
+            schedules.push(marathon_schedule(&mut rng));
+        }
     }
     if let Some(f) = arg(&args, "--save-schedules") {
         let mut w = std::io::BufWriter::new(std::fs::File::create(f).unwrap());
@@ -723,6 +769,12 @@ fn main() {
     for (k, s) in schedules.iter().enumerate() {
         log.reset(k as u64 + 1, json!({"sched": s.id}));
         let mut run = Run::new(log.clone(), seed.wrapping_add(k as u64));
+        // every fourth schedule runs with the clock jumping ahead between its steps (see router_pubsub)
+        run.tick = match k % 8 {
+            1 => Some(&[7, 7, 61, 7, 3601]),
+            5 => Some(&[1, 2, 4, 8, 16, 32, 64, 128, 86_400]),
+            _ => None,
+        };
         run.run(s);
         if run.dead {
             dead += 1;
